@@ -14,6 +14,28 @@ CHECKS = {
         technique="Coq proof (structural induction) + regenerated registry + model/impl correspondence",
         design="4/C20"),
 }
+CHECKS["C04"] = dict(
+    text="Theorems over the router model for EVERY state, message and sender: to_device_exactly_the_addressed (iff), each_delivery_once (NoDup), "
+         "never_handed_back_to_sender, device_bound_never_relayed, histories_keep_clients_unique (induction over histories); direction flags of the live "
+         "classes proved equal to the protocol table (reg_ok_router by vm_compute on the regenerated registry). Correspondence: real Router with real "
+         "Driver.accepts / catch-all device, exhaustive bounded universe + random histories.",
+    note=NOTE_BASE + "Modelled: endpoint identity (==), list/dict semantics of the router.",
+    technique="Coq proof (iff-characterisation + history induction) + regenerated registry + exhaustive small-universe correspondence",
+    design="4/C04")
+CHECKS["C05"] = dict(
+    text="Theorems: to_client_per_policy (iff, every state), policy_matrix, policy_is_most_recent_setting (for every well-formed history the table equals the "
+         "specification function last_enable_rev), settings_are_independent, unregister_forgets_policy, reconnect_starts_from_default. Correspondence: real "
+         "Router over exhaustive policy assignments for <=3 clients x 2 devices and random histories with re-registration.",
+    note=NOTE_BASE + "Modelled: dict-of-dict policy table; BLOB payload = setBLOBVector.",
+    technique="Coq proof (refinement of the policy table to a history specification) + correspondence",
+    design="4/C05")
+CHECKS["C09"] = dict(
+    text="Theorems over all operation sequences and any number of switches: rule_holds_along_every_history (state and every published update), "
+         "oneofmany_keeps_exactly_one, turning_on_leaves_it_on, anyofmany_changes_only_the_named. Correspondence: exhaustive transitions "
+         "(3 rules x 1..4 switches x all initial configurations x all single operations) on a real Driver + random sequences.",
+    note=NOTE_BASE + "Modelled: all elements enabled.",
+    technique="Coq proof (invariant by induction over operations) + exhaustive transition correspondence",
+    design="4/C09")
 PENDING = {}
 props = [json.loads(l) for l in open(os.path.join(V, "properties.jsonl"))]
 checks, na = [], []
